@@ -512,6 +512,41 @@ fn run_conf(conf: &Conf, behaviours: &[&str], rep: &Report) -> u64 {
         let (x, y, _) = tokio::join!(a, b, ds);
         n = x + y + behaviours.len() as u64;
     });
+    // shutdown is requested while connections are in flight (one silent, one stalled after Login Start): they keep
+    // their own deadline - closed no later than timeout (+ allowance) after they were accepted, not later because
+    // the listener is draining
+    if conf.timeout <= 10 && !conf.big_status && conf.max_packet_length >= 64 {
+        let pid = server.child.id() as i32;
+        run_local(async {
+            let mut conns = vec![];
+            for stalled in [false, true] {
+                if let Ok(mut c) = connect(addr, conf).await {
+                    if stalled {
+                        let _ = c.send(&codec::sb_handshake(769, "h", 25565, 2)).await;
+                        let _ = c.send(&codec::sb_login_start("Stalled", 7)).await;
+                    }
+                    conns.push((stalled, Instant::now(), c));
+                }
+            }
+            tokio::time::sleep(Duration::from_millis(300)).await;
+            unsafe {
+                libc::kill(pid, libc::SIGINT);
+            }
+            for (stalled, t0, mut c) in conns {
+                let bound = Duration::from_secs(conf.timeout) + ALLOWANCE;
+                let left = bound.saturating_sub(t0.elapsed());
+                let closed = c.wait_closed(left).await.is_ok();
+                n += 1;
+                if !closed {
+                    out.lock().unwrap().push((
+                        "deadline-not-kept-while-draining".into(),
+                        format!("timeout = {} s: a {} connection that was open when shutdown was requested (300 ms after it connected) was still open {:?} after it was accepted", conf.timeout, if stalled { "stalled (Login Start sent, Cookie Request not answered)" } else { "silent" }, t0.elapsed()),
+                        json!({"conf": conf, "case": "stop-in-flight", "stalled": stalled}),
+                    ));
+                }
+            }
+        });
+    }
     // stop it like an operator would and make sure start() returns cleanly
     match stop(server) {
         Some(0) => {}
@@ -575,6 +610,8 @@ pub fn run(cli: Cli) -> ! {
             Conf { max_packet_length: 1_200, expiry: 3, timeout: 2, proxy: String::new(), big_status: false, files: "yaml".into() },
             Conf { max_packet_length: 2_000, expiry: 60, timeout: 1, proxy: "v1v2".into(), big_status: false, files: "yaml+env".into() },
             Conf { max_packet_length: 1_500, expiry: 60, timeout: 2, proxy: String::new(), big_status: false, files: "yaml+env-secret".into() },
+            // an expiry shorter than the timeout (a cookie may be older than the expiry and younger than the timeout)
+            Conf { max_packet_length: 1_100, expiry: 2, timeout: 6, proxy: String::new(), big_status: false, files: "yaml".into() },
         ]
     };
     let total = std::sync::atomic::AtomicU64::new(0);
